@@ -16,6 +16,9 @@
      c04_udp_identical_when_fits_partial   clause (iii) for answers that end Ok: if the finished TCP message
                                  fits the UDP space, the UDP response is octet-identical (through
                                  c04_writer_limit_monotone and a relational lifting over the query model)
+     c04_tc_on_the_octets        (third wave, composition with C12's round trip) clause (ii) on the FINISHED OCTETS,
+                                 for every zone built by adds: the RFC 1035 decoder finds TC set only over UDP, and
+                                 then no answer / authority record and nothing but the OPT in the additional section
    What is NOT proved and is decided per case by the extracted oracle [pair_check] (Spec/RespS.v) on
    the real server's two responses to every generated request: clause (iii) for answers that end in
    SERVFAIL (false there: finding C04-1), clause (iv) "otherwise a TC-clear UDP response differs only
@@ -24,6 +27,7 @@
 From QV Require Import Base.Res Base.Octets Model.MsgWriter Model.ZoneTree Model.Query Model.QueryW
   Proofs.MsgWriterInvP Proofs.QueryWP Proofs.ServerLimitP Proofs.WriterMonoP Proofs.QueryMonoP Spec.MsgWriterS Spec.RespS.
 From QV Require Model.Server Spec.NameRepr.
+From QV Require Import Spec.ZoneLookupS Proofs.ComposeTraceP Proofs.ComposeTcP.
 
 Theorem c04_response_within_limit : forall negttl buf tcp id rd qname qtype qclass edns limit z len b,
   respond_w negttl buf tcp id rd qname qtype qclass edns limit z = Some (len, b) ->
@@ -191,6 +195,26 @@ Proof.
   vm_compute. repeat split; repeat constructor.
 Qed.
 
+(* Clause (ii) on the octets.  c04_tc_shape above speaks about the Writer's counters and header octet; this one about
+   what an independent RFC 1035 decoder reads from the finished message: for every zone built by adds (any records with
+   RDATA <= 65535 octets < 256 and 16-bit types), every question at/below the apex, both transports, with or without
+   EDNS, any buffer of at least 512 octets: respond_w returns a message that decodes; over TCP its TC bit is clear; if
+   its TC bit is set, the answer and authority sections are empty and the additional section holds only pseudo-records
+   (the OPT).  From c12_roundtrip + the key lemma of Proofs/ComposeKeyP.v: the only operation of the whole run that
+   touches TC is the set_tc(true) right after clear_rrs in the Truncation arm over UDP. *)
+Theorem c04_tc_on_the_octets : forall reqf apex cls wide recs z negttl buf tcp id rd qname qtype qclass edns limit,
+  (forall c t a b d, reqf c t a b = true -> reqf c t b d = true -> reqf c t a d = true) ->
+  zone_build reqf (zone_new apex cls wide) recs = Some z ->
+  Forall (fun r => good_rd (r_rdata r) /\ (r_type r < 65536)%N) recs -> good_name apex -> (cls < 65536)%N ->
+  512 <= length buf -> good_name qname -> in_zone apex qname = true ->
+  (id < 65536)%N -> (qtype < 65536)%N -> (qclass < 65536)%N -> (forall s, edns = Some s -> (s < 65536)%N) ->
+  exists len b m, respond_w negttl buf tcp id rd qname qtype qclass edns limit z = Some (len, b) /\
+    decode_msg (firstn len b) = Some m /\
+    (tcp = true -> tc_bit m = false) /\
+    (tc_bit m = true -> m_an m = [] /\ m_ns m = [] /\ forallb is_pseudo (m_ar m) = true).
+Proof. exact respond_w_tc_build. Qed.
+
+Print Assumptions c04_tc_on_the_octets.
 Print Assumptions c04_response_within_limit.
 Print Assumptions c04_tc_shape.
 Print Assumptions c04_limit_value.
